@@ -62,15 +62,18 @@ func c17MatchType(s string) labels.MatchType {
 func c17BuildDB(c *c17E2ECase) *fakes.DB {
 	db := &fakes.DB{Tables: map[string][]fakes.Row{}, Funcs: map[string]func([]fakes.Value) (fakes.Value, error){}}
 	for _, s := range c.Series {
-		var raw [][]interface{}
-		for _, kv := range s.Labels {
-			db.Tables["time_series_gin"] = append(db.Tables["time_series_gin"], fakes.Row{
-				"date": fakes.Str(c17Day), "key": fakes.Str(kv[0]), "val": fakes.Str(kv[1]),
-				"fingerprint": fakes.Uint(s.Fp), "type": fakes.Int(int64(s.Type))})
-			raw = append(raw, []interface{}{kv[0], kv[1]})
+		// a series is registered on every UTC day it has samples and on no other (C04)
+		for _, day := range c17SeriesDays(s) {
+			var raw [][]interface{}
+			for _, kv := range s.Labels {
+				db.Tables["time_series_gin"] = append(db.Tables["time_series_gin"], fakes.Row{
+					"date": fakes.Str(day), "key": fakes.Str(kv[0]), "val": fakes.Str(kv[1]),
+					"fingerprint": fakes.Uint(s.Fp), "type": fakes.Int(int64(s.Type))})
+				raw = append(raw, []interface{}{kv[0], kv[1]})
+			}
+			db.Tables["time_series"] = append(db.Tables["time_series"], fakes.Row{
+				"date": fakes.Str(day), "fingerprint": fakes.Uint(s.Fp), "labels": fakes.RawValue(raw), "type": fakes.Int(int64(s.Type))})
 		}
-		db.Tables["time_series"] = append(db.Tables["time_series"], fakes.Row{
-			"date": fakes.Str(c17Day), "fingerprint": fakes.Uint(s.Fp), "labels": fakes.RawValue(raw), "type": fakes.Int(int64(s.Type))})
 		for _, sm := range s.Samples {
 			db.Tables["samples_v3"] = append(db.Tables["samples_v3"], fakes.Row{
 				"fingerprint": fakes.Uint(s.Fp), "timestamp_ns": fakes.Int(sm[0] * 1000000),
@@ -198,9 +201,11 @@ func c17FpEvalTie(db *fakes.DB, c *c17E2ECase, ms []*labels.Matcher, sampleSQL s
 	var rowStrs, tbl []string
 	values := map[string]bool{"": true}
 	for _, s := range c.Series {
-		for _, kv := range s.Labels {
-			values[kv[1]] = true
-			rowStrs = append(rowStrs, strings.Join([]string{hx(c17Day), hx(kv[0]), hx(kv[1]), strconv.FormatUint(s.Fp, 10), strconv.Itoa(s.Type)}, "~"))
+		for _, day := range c17SeriesDays(s) {
+			for _, kv := range s.Labels {
+				values[kv[1]] = true
+				rowStrs = append(rowStrs, strings.Join([]string{hx(day), hx(kv[0]), hx(kv[1]), strconv.FormatUint(s.Fp, 10), strconv.Itoa(s.Type)}, "~"))
+			}
 		}
 	}
 	for _, m := range ms {
@@ -229,6 +234,29 @@ func c17FpEvalTie(db *fakes.DB, c *c17E2ECase, ms []*labels.Matcher, sampleSQL s
 	return fmt.Sprintf("c17fpeval %s 2 %s %s %s", hx(date), c17MatcherArgs(ms), join(rowStrs), join(tbl)), c17FpsStr(fps), nil
 }
 
+// c17MergedIntoUnlabelled: the samples of a wanted series are part of a handed-out series that has no labels
+func c17MergedIntoUnlabelled(got []c17Series, w c17Want) bool {
+	for _, g := range got {
+		if len(g.Labels) != 0 || len(w.Samples) == 0 {
+			continue
+		}
+		have := map[string]bool{}
+		for _, x := range g.Samples {
+			have[fmt.Sprint(x)] = true
+		}
+		all := true
+		for _, x := range w.Samples {
+			if !have[fmt.Sprint(x)] {
+				all = false
+			}
+		}
+		if all {
+			return true
+		}
+	}
+	return false
+}
+
 func c17RunE2E(r *h.Result, sc *fakes.Script, q storage.Querier, c *c17E2ECase) error {
 	_, _, err := c17RunE2ETie(r, sc, q, c)
 	return err
@@ -249,6 +277,13 @@ func c17RunE2ETie(r *h.Result, sc *fakes.Script, q storage.Querier, c *c17E2ECas
 		if err != nil {
 			execErr = fmt.Errorf("%v in: %s", err, qs)
 			return nil, nil, err
+		}
+		if strings.Contains(qs, "JSONExtractKeysAndValues") {
+			var fps []uint64
+			for _, rw := range rows {
+				fps = append(fps, rw[0].I.Uint64())
+			}
+			c17LblFetchRecord(qs, c.Start, c.End, c.Series, fps, *c)
 		}
 		return cols, fakes.DriverRows(rows), nil
 	})
@@ -299,6 +334,10 @@ func c17RunE2ETie(r *h.Result, sc *fakes.Script, q storage.Querier, c *c17E2ECas
 	for _, w := range want {
 		wantBy[w.Fp] = w
 		g, ok := gotBy[w.Fp]
+		if !ok && c17MergedIntoUnlabelled(got, w) {
+			r.Violate("C17/select-distinct-series-merged", fmt.Sprintf("series %d %v is not handed out under its own label set: its samples are inside a series with the empty label set {} together with those of other fingerprints", w.Fp, w.Labels), *c)
+			continue
+		}
 		if !ok {
 			s := byFp[w.Fp]
 			absent := false
@@ -329,7 +368,9 @@ func c17RunE2ETie(r *h.Result, sc *fakes.Script, q storage.Querier, c *c17E2ECas
 			}
 			continue
 		}
-		if !labels.Equal(g.Labels, w.Labels) {
+		if len(g.Labels) == 0 && len(w.Labels) > 0 {
+			r.Violate("C17/select-series-unlabelled", fmt.Sprintf("series %d reaches the engine under the empty label set {}, stored %v (its time_series rows are on %v, window %s .. %s)", w.Fp, w.Labels, c17SeriesDays(byFp[w.Fp]), time.UnixMilli(c.Start).UTC().Format(time.RFC3339Nano), time.UnixMilli(c.End).UTC().Format(time.RFC3339Nano)), *c)
+		} else if !labels.Equal(g.Labels, w.Labels) {
 			r.Violate("C17/select-foreign-labels", fmt.Sprintf("series %d carries %v, stored %v", w.Fp, g.Labels, w.Labels), *c)
 		}
 		if fmt.Sprint(g.Samples) != fmt.Sprint(w.Samples) {
@@ -509,6 +550,9 @@ func c17GenE2E(rng *h.Rng) c17E2ECase {
 	if rng.Chance(35) {
 		c17GrammarMatcher(rng, &c)
 	}
+	if rng.Chance(30) {
+		c17MultiDay(rng, &c)
+	}
 	return c
 }
 
@@ -632,9 +676,39 @@ func c17E2E(r *h.Result, rng *h.Rng, n int) error {
 		}
 		r.Case("e2e:"+strconv.FormatInt(c.Start, 10)+string(b), len(c.Series) >= 2 && neg)
 		r.Count(fmt.Sprintf("e2e:matchers=%d", len(c.Matchers)))
+		r.Count(fmt.Sprintf("e2e:midnights in window=%d", (c.End/c17DayMs)-(c.Start/c17DayMs)))
+		if c.End/c17DayMs > c.Start/c17DayMs {
+			if c.Start%c17DayMs < 30*60000 {
+				r.Count("e2e:multi-day, start in the first half hour of a day")
+			}
+			if c.End%c17DayMs < 30*60000 {
+				r.Count("e2e:multi-day, end in the first half hour of a day")
+			}
+			for _, s := range c.Series {
+				first, last, in := false, false, false
+				for _, sm := range s.Samples {
+					if sm[0] >= c.Start && sm[0] <= c.End {
+						in = true
+						first = first || sm[0]/c17DayMs == c.Start/c17DayMs
+						last = last || sm[0]/c17DayMs == c.End/c17DayMs
+					}
+				}
+				switch {
+				case in && !last:
+					r.Count("e2e:multi-day series with in-window samples, none on the last day")
+				case in && !first:
+					r.Count("e2e:multi-day series with in-window samples, none on the first day")
+				case in:
+					r.Count("e2e:multi-day series on the first and the last day")
+				}
+			}
+		}
 		if i%97 == 0 {
 			r.Sample(c)
 		}
+	}
+	if err := c17LblFetchFlush(r, "e2e"); err != nil {
+		return err
 	}
 	return r.Compare("e2e", ops, impl, cases)
 }
@@ -661,6 +735,9 @@ func init() {
 		}
 		r.Case("replay", true)
 		op, im, err := c17RunE2ETie(r, sc, q, &c)
+		if ferr := c17LblFetchFlush(r, "e2e"); ferr != nil {
+			return ferr
+		}
 		if err != nil || op == "" {
 			return err
 		}
